@@ -8,6 +8,9 @@ behaviours are themselves lists of ops executed when the handler is called, so o
 (`run_scenario`) serves every check and `replay`.
 
 ops:  ["c", hid, skey, name, {"wids":[..], "uargs":[..], "uarg":x, "beh":[ops], "ret":r}]   connect
+      ... {"dying": [[wid, via, at], ...]} in the connect options: weak argument wid (of OTHER handlers) loses its last
+          strong reference (+ gc.collect()) WHILE this connect_signal() call is consuming its `weak_args` (via "w") or
+          `user_args` (via "u") iterable, just before item `at` of that iterable is produced (at == length: at its end)
       ["cnew", skey, name]            connect a fresh plain handler (hid N<k>)
       ["da", hid, {overrides}]        disconnect by the arguments given at connect time (overridable)
       ["dk", hid|"foreign", skey?, name?]   disconnect by the key of hid's latest connection
@@ -171,7 +174,17 @@ class World:
         return wid
 
     # -- requests
-    def connect(self, hid, skey, name, wids=(), uargs=(), uarg=None, beh=None, ret=None):
+    def _dying_iterable(self, items, deaths):
+        """An iterable over `items` during whose iteration (by connect_signal itself) the weak arguments named in
+        `deaths` = [(base, at)] die.  It holds no reference to them (only their names)."""
+        for i in range(len(items) + 1):
+            for base, at in deaths:
+                if at == i or (i == len(items) and at > i):
+                    self.kill(base)
+            if i < len(items):
+                yield items[i]
+
+    def connect(self, hid, skey, name, wids=(), uargs=(), uarg=None, beh=None, ret=None, dying=()):
         h = self.handlers.get(hid)
         if h is None:
             h = self.handlers[hid] = Handler(self, hid, beh, ret)
@@ -182,6 +195,13 @@ class World:
             kw["weak_args"] = [self.weak[x] for x in wids]
         if uargs:
             kw["user_args"] = tuple(real_uargs) if len(uargs) % 2 else list(real_uargs)
+        # deaths of OTHER handlers' weak arguments in the middle of this connect (the API takes any iterable)
+        dw = [(b, at) for b, via, at in dying if via == "w" and self.gen.get(b, b) not in wids]
+        du = [(b, at) for b, via, at in dying if via == "u" and self.gen.get(b, b) not in wids]
+        if dw:
+            kw["weak_args"] = self._dying_iterable(kw.get("weak_args", []), dw)
+        if du:
+            kw["user_args"] = self._dying_iterable(list(kw.get("user_args", [])), du)
         key = None
         try:
             if uarg is not None:
@@ -412,7 +432,8 @@ def _beh_ops(b, i, v):
 
 def reentrant_scenario(n, behs, v, inj):
     """n handlers H0..H(n-1) on (s0,'a'), bystanders on (s0,'b') and (s1,'a'); two emits, then probes.
-    inj: None | ["conn", k, wid] | ["pre"|"post", i, wid] | ["mid", wid]"""
+    inj: None | ["conn", k, wid] | ["pre"|"post", i, wid] | ["mid", wid] | ["during", k, wid, via, at] (wid dies
+    while H<k> is being connected: inside connect_signal, see the "dying" connect option)"""
     ops = [["c", "HB", "s0", "b", {"uargs": ["hb"], "ret": 1}],
            ["c", "HC", "s1", "a", {"wids": ["SH"], "ret": 0} if v % 2 else {"ret": 0}]]
     for i in range(n):
@@ -423,6 +444,8 @@ def reentrant_scenario(n, behs, v, inj):
         if inj and inj[0] == "post" and inj[1] == i:
             bops = [*bops, ["k1", inj[2]]]
         st["beh"], st["ret"] = bops, ret
+        if inj and inj[0] == "during" and inj[1] == i:
+            st["dying"] = [[inj[2], inj[3], inj[4]]]
         ops.append(["c", f"H{i}", "s0", "a", st])
         if inj and inj[0] == "conn" and inj[1] == i:
             ops.append(["k", inj[2]])
@@ -441,6 +464,10 @@ def injections(n, v):
     out = [None]
     for wd, us in sorted(users.items()):
         out += [["conn", k, wd] for k in range(us[0], n)]
+        for k in range(us[0] + 1, n):
+            if k not in us:  # H<k> is not handed the object: it can die while H<k> is being connected
+                nb = len(_style(k + v, k).get("wids", ()))
+                out += [["during", k, wd, "w", at] for at in sorted({0, nb})] + [["during", k, wd, "u", 0]]
         for i in range(n):
             if i not in us:  # a handler that is handed the object cannot see it die
                 out += [["pre", i, wd], ["post", i, wd]]
@@ -471,6 +498,51 @@ def history_alphabet():
 
 def history_scenario(ops, v):
     return {"senders": {"s0": KINDS[v % 3], "s1": KINDS[(v + 1) % 3]}, "cyclic": v % 2 == 1, "ops": [*ops, *PROBES]}
+
+
+B_STYLES = [{}, {"uargs": ["ub", 1]}, {"wids": ["SB"]}, {"uarg": "uab"}, {"wids": ["WB", "SB"], "uargs": ["vb"], "uarg": 200}]
+
+
+def during_connect_scenarios(quick):
+    """A weak argument of an ALREADY CONNECTED handler P<i> dies in the middle of connect_signal(B): connect_signal takes
+    its weak_args / user_args as iterables and consumes them after it has looked the handler list up and before it
+    appends the new entry, so an iterable that drops the last reference (cyclic variants: and runs the collector) puts
+    the death, and the automatic removal of P<i> it triggers, exactly there.  Afterwards B must be connected like any
+    other handler: called exactly once per emit, in connection order, disconnectable by its key and by its arguments;
+    P<i> must be gone; bystanders on the same sender's other signal and on another sender are judged too.
+    yields (key, scenario)."""
+    posts = [[], [["dk", "B"]], [["da", "B"]], [["cnew", "s0", "a"]], [["k", "SB"]],
+             [["c", "B2", "s0", "a", {"uargs": ["b2"], "ret": 1}], ["dk", "B"]], [["e", "s0", "a", E2], ["da", "B"]]]
+    if quick:  # continuations: all 7 on the plain B, the first four otherwise
+        posts_for = lambda bk: posts if bk == 0 else posts[:4]  # noqa: E731
+    else:
+        posts_for = lambda bk: posts  # noqa: E731
+    for v in range(3 if quick else 6):
+        senders = {"s0": KINDS[v % 3], "s1": KINDS[(v + 1) % 3]}
+        for n in (1, 2, 3):
+            sets = list(itertools.product(range(5), repeat=n)) if n <= 2 or not quick else [tuple((i + r) % 5 for i in range(3)) for r in range(5)]
+            for sts in sets:
+                pre, used = [], []
+                for i, k in enumerate(sts):
+                    st = dict(_style(k, i), ret=TRUTHY[i] if (i + v) % 3 == 0 else FALSY[i])
+                    pre.append(["c", f"P{i}", "s0", "a", st])
+                    used += st.get("wids", [])
+                targets = sorted(set(used))
+                if not targets:
+                    continue
+                bystanders = [["c", "HB", "s0", "b", {"wids": ["SH"], "ret": 1}], ["c", "HC", "s1", "a", {"wids": ["SH"], "uargs": ["hc"], "ret": 0}]]
+                for bk, bstyle in enumerate(B_STYLES):
+                    nb, nu = len(bstyle.get("wids", ())), len(bstyle.get("uargs", ()))
+                    moments = [("w", at) for at in range(nb + 1)] + [("u", at) for at in sorted({0} if quick else {0, nu})]
+                    deaths = [[[wd, via, at]] for wd in targets for via, at in moments]
+                    if len(targets) > 1:  # two deaths inside one connect
+                        deaths += [[[targets[0], "w", 0], [targets[1], "w", nb]], [[targets[1], "w", 0], [targets[0], "u", 0]]]
+                    for dying in deaths:
+                        # the critical place is the same (sender, signal); the other two are controls
+                        for sk, nm in ([("s0", "a"), ("s0", "b"), ("s1", "a")] if bk == 0 or (bk == 4 and not quick) else [("s0", "a")]):
+                            for pi, post in enumerate(posts_for(bk)):
+                                ops = [*bystanders, *pre, ["c", "B", sk, nm, dict(bstyle, dying=dying, ret=0 if bk % 2 else 1)], *post, *PROBES]
+                                yield (v, sts, bk, repr(dying), sk, nm, pi), {"senders": senders, "cyclic": v % 2 == 1, "ops": ops}
 
 
 def noop_scenarios():
@@ -1120,6 +1192,13 @@ def run(tier="quick", seed=0):
             r2 = c2.result()
             r2["skipped_ambiguous"] = amb[0]
             out.append(r2)
+
+            # 2b. a weak argument dies while another handler is being connected
+            c2c = Check("C14/death-during-connect", "1..3 handlers connected to (s0,'a') in every combination of the 5 connect styles (at least one with weak arguments), bystanders sharing a weak argument on (s0,'b') and (s1,'a'); then connect_signal(B) in each of 5 styles whose weak_args / user_args ITERABLE drops the last reference to a weak argument of an earlier handler (+ gc.collect(); cyclic and acyclic garbage) before each of its items / at its end (also two deaths in one connect); then nothing / disconnect B by key / by arguments / connect another / kill B's own weak argument / connect another and disconnect B / emit and disconnect B; then one emit of every (sender, name): exact call lists, order, arguments and results by the reference model, nothing kept alive", True,
+                        f"{3 if quick else 6} variants (3 sender kinds, cyclic/acyclic) x style combinations of 1..3 earlier handlers{' (n=3: 5 rotations)' if quick else ''} x 5 styles of B x every dying weak argument x every position in the weak_args / {'start' if quick else 'both ends'} of the user_args iterable x B on the same (sender,signal) [+ 2 control places for {1 if quick else 2} style(s)] x {'7 continuations for the plain B, 4 otherwise' if quick else '7 continuations'}")
+            for key, sc in during_connect_scenarios(quick):
+                _eval(c2c, key, sc, {"ops": [o[:5] for o in sc["ops"][2:6]]}, None, True)
+            out.append(c2c.result())
 
             # 3. random histories of re-entrant handlers (thorough only)
             if not quick:
